@@ -14,6 +14,7 @@ import (
 	"github.com/bitcoin-sv/block-headers-service/config"
 	"github.com/bitcoin-sv/block-headers-service/internal/chaincfg"
 	"github.com/bitcoin-sv/block-headers-service/internal/chaincfg/chainhash"
+	"github.com/bitcoin-sv/block-headers-service/internal/wire"
 	peerpkg "github.com/bitcoin-sv/block-headers-service/transports/p2p/peer"
 	"github.com/bitcoin-sv/block-headers-service/verifharness/gen"
 	"github.com/bitcoin-sv/block-headers-service/verifharness/refmodel"
@@ -34,8 +35,9 @@ type NodeSpec struct {
 	ForbiddenAt     int    `json:"forbidden_at,omitempty"` // forbidden: height at which its chain carries the forbidden header
 	BadAt           int    `json:"bad_at,omitempty"`       // badcheckpoint: checkpoint height at which its chain differs
 	MaxAccepts      int    `json:"max_accepts,omitempty"`
-	MaxLive         int    `json:"max_live,omitempty"`       // at most n simultaneous connections (1 = "a single connection")
-	NoDescendants   bool   `json:"no_descendants,omitempty"` // forbidden: the forbidden header is the last of the node's chain
+	MaxLive         int    `json:"max_live,omitempty"`         // at most n simultaneous connections (1 = "a single connection")
+	NoDescendants   bool   `json:"no_descendants,omitempty"`   // forbidden: the forbidden header is the last of the node's chain
+	OrphanForbidden bool   `json:"orphan_forbidden,omitempty"` // forbidden: the node follows the honest chain and pushes, unsolicited, a forbidden header whose parent the service does not have
 }
 
 // AnnounceSpec is one announcement round after the initial sync.
@@ -93,15 +95,16 @@ type GetHeadersShape struct {
 
 // World is the materialised block tree of a scenario.
 type World struct {
-	Honest    []refmodel.Hdr   // honest chain, index i = height i+1 (grows with announcements)
-	Chains    [][]refmodel.Hdr // per node best chain
-	Forbidden *refmodel.Hdr
-	Height    map[refmodel.Hash]int32 // every block of the tree -> height
-	Parent    map[refmodel.Hash]refmodel.Hash
-	Work      map[refmodel.Hash]float64 // not used for verdicts
-	rng       *rand.Rand
-	counter   int
-	now       uint32
+	Honest          []refmodel.Hdr   // honest chain, index i = height i+1 (grows with announcements)
+	Chains          [][]refmodel.Hdr // per node best chain
+	Forbidden       *refmodel.Hdr
+	ForbiddenOrphan *refmodel.Hdr           // forbidden header with an unknown parent (delivered before its parent)
+	Height          map[refmodel.Hash]int32 // every block of the tree -> height
+	Parent          map[refmodel.Hash]refmodel.Hash
+	Work            map[refmodel.Hash]float64 // not used for verdicts
+	rng             *rand.Rand
+	counter         int
+	now             uint32
 }
 
 func (w *World) mine(prev refmodel.Hash, bits uint32, t uint32) refmodel.Hdr {
@@ -152,6 +155,21 @@ func BuildWorld(s *Scenario, genesis refmodel.Hash) *World {
 				p = h.HashOf()
 			}
 		case "forbidden":
+			if ns.OrphanForbidden {
+				// follows the honest chain a little behind; the forbidden header hangs off a parent nobody has
+				n := s.HonestLen - 2
+				if n < 1 {
+					n = 1
+				}
+				chain = append(chain, w.Honest[:n]...)
+				if w.ForbiddenOrphan == nil {
+					var unk refmodel.Hash
+					w.rng.Read(unk[:])
+					f := w.mine(unk, gen.BitsNormal, w.now-3)
+					w.ForbiddenOrphan = &f
+				}
+				break
+			}
 			// honest prefix, then the forbidden header at height ForbiddenAt, then a few descendants
 			at := ns.ForbiddenAt
 			chain = append(chain, w.Honest[:at-1]...)
@@ -338,6 +356,10 @@ func Execute(s *Scenario, dir string) (res *Result) {
 		x.forbid = &h
 		chaincfg.MainNetParams.HeadersToIgnore = append(chaincfg.MainNetParams.HeadersToIgnore, &h)
 	}
+	if x.w.ForbiddenOrphan != nil {
+		h := chainhash.Hash(x.w.ForbiddenOrphan.HashOf())
+		chaincfg.MainNetParams.HeadersToIgnore = append(chaincfg.MainNetParams.HeadersToIgnore, &h)
+	}
 	var cps []Checkpoint
 	for _, ch := range s.CheckpointHeights {
 		cps = append(cps, Checkpoint{Height: ch, Hash: x.w.Honest[ch-1].HashOf()})
@@ -365,6 +387,11 @@ func Execute(s *Scenario, dir string) (res *Result) {
 			n.Silent = ns.Silent
 			n.MaxAccepts = ns.MaxAccepts
 			n.MaxLive = ns.MaxLive
+			if ns.Kind == "forbidden" && ns.OrphanForbidden {
+				m := wire.NewMsgHeaders()
+				m.Headers = append(m.Headers, WireHeader(*x.w.ForbiddenOrphan))
+				n.PushAfterReply, n.PushInfo = m, "orphan-forbidden header pushed unsolicited"
+			}
 		})
 		x.nodes = append(x.nodes, n)
 	}
